@@ -1438,6 +1438,16 @@ def Calc_projector(oldMesh: Mesh, newMesh: Mesh) -> sp.csr_matrix:
 
     tic.Tac("Mesh", "Mapping between meshes", False)
 
+    # A node lying on an edge, a face or a node of the old mesh is detected in several elements.
+    # Keep it in the last one, the one its reference coordinates coordo_n were computed in.
+    owner_n = np.full(newMesh.Nn, -1, dtype=int)
+    for element, nodes in zip(detectedElements_e, connect_e_n):
+        owner_n[np.asarray(nodes, dtype=int)] = element
+    connect_e_n = [
+        np.asarray(nodes, dtype=int)[owner_n[np.asarray(nodes, dtype=int)] == element]
+        for element, nodes in zip(detectedElements_e, connect_e_n)
+    ]
+
     # Evaluation of shape functions
     Ntild = oldMesh.groupElem._N()
     nPe = oldMesh.groupElem.nPe
